@@ -435,7 +435,9 @@ class Module:
         self.unrolled_loops = unroll_literal_loops(tree)
         self.propagated_locals, self.propagated_names = propagate_locals(tree, baseline_keep(rel), unstable_attrs, effects)
         if self.propagated_locals or self.unrolled_loops:
-            tree = ast.fix_missing_locations(_Canonical().visit(tree))
+            cn2 = _Canonical()
+            tree = ast.fix_missing_locations(cn2.visit(tree))
+            cn.rewrites += cn2.rewrites
         self.tree = tree
         self.type_checking_blocks = st.stripped
         self.canonical_rewrites = cn.rewrites
@@ -861,12 +863,21 @@ class Program:
             h.update(self.modules[n].digest.encode())
         return h.hexdigest()[:16]
 
-    def stats(self) -> Dict[str, int]:
+    def stats(self) -> Dict[str, Any]:
         return {
             'modules': len(self.modules),
             'classes': len(self.classes),
             'functions': len(self.functions),
             'lines': sum(m.lines for m in self.modules.values()),
+            # what the normal forms did to the tree before any rule read it (DESIGN.md 10.10)
+            'normal_forms': {
+                'helpers_inlined': sorted({h for m in self.modules.values() for h in m.inlined_helpers}),
+                'inlined_calls': sum(m.inlined_calls for m in self.modules.values()),
+                'canonical_rewrites': sum(m.canonical_rewrites for m in self.modules.values()),
+                'literal_loops_unrolled': sum(m.unrolled_loops for m in self.modules.values()),
+                'transparent_locals': sum(m.propagated_locals for m in self.modules.values()),
+                'type_checking_blocks_stripped': sum(m.type_checking_blocks for m in self.modules.values()),
+            },
         }
 
 
